@@ -15,32 +15,32 @@ CORE = {"orders", "orders.status", "orders.vol", "orders.price", "orders.times",
 
 # profile plans: (profile, histories, ops per history, extra drive args)
 PLANS = {
-    "C01": {"quick": [("enum", "d3", 4, 3, []), ("book", "disciplined", 800, 60, []), ("book", "modify", 200, 50, []), ("book", "wide", 100, 60, [])],
+    "C01": {"quick": [("enum", "d3", 4, 3, []), ("book", "disciplined", 800, 60, []), ("book", "modify", 200, 50, []), ("book", "wide", 100, 60, []), ("book", "mixed", 200, 80, ["--levels", "1,3,10"])],
             "thorough": [("enum", "d4", 16, 4, []), ("book", "disciplined", 12000, 120, ["--levels", "1,3,10,24"]), ("book", "modify", 3000, 100, []),
-                         ("book", "wide", 2000, 100, []), ("book", "toggle", 2000, 100, [])]},
+                         ("book", "wide", 2000, 100, []), ("book", "toggle", 2000, 100, []), ("book", "mixed", 3000, 120, ["--levels", "1,3,10"])]},
     "C02": {"quick": [("enum", "d3", 4, 3, []), ("book", "disciplined", 300, 60, ["--levels", "1,2,3,5,10,24"]), ("book", "toggle", 300, 60, ["--levels", "1,2,3,5,10,24"]),
                       ("book", "modify", 200, 60, ["--levels", "1,3,10"]), ("book", "reload", 100, 60, ["--levels", "1,5,24"]),
-                      ("market", "plain", 60, 80, [])],
+                      ("market", "plain", 60, 80, []), ("book", "mixed", 200, 80, ["--levels", "1,3,10"])],
             "thorough": [("enum", "d4", 16, 4, []), ("book", "disciplined", 8000, 120, ["--levels", "1,2,3,5,10,24"]), ("book", "toggle", 5000, 120, ["--levels", "1,2,3,5,10,24"]),
                          ("book", "modify", 3000, 120, ["--levels", "1,3,10"]), ("book", "reload", 2000, 100, ["--levels", "1,5,24"]),
-                         ("book", "wide", 2000, 100, []), ("market", "plain", 1000, 100, []), ("menv", "plain", 1000, 10, [])]},
-    "C03": {"quick": [("enum", "d3", 4, 3, []), ("book", "disciplined", 400, 60, []), ("book", "toggle", 200, 60, []), ("book", "modify", 300, 60, [])],
+                         ("book", "wide", 2000, 100, []), ("market", "plain", 1000, 100, []), ("menv", "plain", 1000, 10, []), ("book", "mixed", 3000, 120, ["--levels", "1,3,10"])]},
+    "C03": {"quick": [("enum", "d3", 4, 3, []), ("book", "disciplined", 400, 60, []), ("book", "toggle", 200, 60, []), ("book", "modify", 300, 60, []), ("book", "mixed", 200, 80, ["--levels", "1,3,10"])],
             "thorough": [("enum", "d4", 16, 4, []), ("book", "disciplined", 10000, 120, []), ("book", "toggle", 4000, 120, []), ("book", "modify", 4000, 120, []),
-                         ("book", "wide", 2000, 100, []), ("market", "plain", 1000, 100, [])]},
-    "C04": {"quick": [("enum", "d3", 4, 3, []), ("book", "redundant", 500, 80, []), ("book", "toggle", 200, 60, []), ("book", "modify", 150, 60, [])],
+                         ("book", "wide", 2000, 100, []), ("market", "plain", 1000, 100, []), ("book", "mixed", 3000, 120, ["--levels", "1,3,10"])]},
+    "C04": {"quick": [("enum", "d3", 4, 3, []), ("book", "redundant", 500, 80, []), ("book", "toggle", 200, 60, []), ("book", "modify", 150, 60, []), ("book", "mixed", 200, 80, ["--levels", "1,3,10"])],
             "thorough": [("enum", "d3", 4, 3, []), ("enum", "d3tick1", 4, 3, ["--tick", "1"]), ("book", "redundant", 8000, 150, []), ("book", "toggle", 3000, 120, []), ("book", "disciplined", 3000, 120, []),
-                         ("book", "modify", 3000, 120, [])]},
+                         ("book", "modify", 3000, 120, []), ("book", "mixed", 3000, 120, ["--levels", "1,3,10"])]},
     "C05": {"quick": [("enum", "d3ties", 4, 3, ["--ties", "1"]), ("book", "ties", 500, 60, []), ("book", "ties", 200, 60, ["--prices", "2"]),
                       ("env", "overfull", 100, 8, []), ("menv", "overfull", 100, 8, [])],
             "thorough": [("enum", "d4ties", 16, 4, ["--ties", "1"]), ("book", "ties", 12000, 120, []), ("book", "ties", 4000, 100, ["--prices", "2"]),
                          ("book", "ties", 2000, 100, ["--levels", "1,10,24"]),
                          ("env", "overfull", 2000, 12, []), ("menv", "overfull", 2000, 12, [])]},
     "C06": {"quick": [("enum", "d3", 4, 3, []), ("book", "modify", 500, 40, ["--levels", "5"]), ("book", "modify", 200, 60, ["--prices", "2"]),
-                      ("book", "toggle", 300, 60, [])],
+                      ("book", "toggle", 300, 60, []), ("book", "mixed", 200, 80, ["--levels", "1,3,10"])],
             "thorough": [("enum", "d4", 16, 4, []), ("book", "modify", 10000, 80, ["--levels", "5"]), ("book", "modify", 4000, 120, ["--prices", "2"]),
-                         ("book", "toggle", 2000, 100, [])]},
-    "C07": {"quick": [("book", "reload", 300, 60, ["--levels", "1,10"]), ("market", "reload", 100, 80, ["--levels", "1,10"])],
-            "thorough": [("book", "reload", 6000, 120, ["--levels", "1,3,10,24"]), ("market", "reload", 2000, 120, ["--levels", "1,3,10"])]},
+                         ("book", "toggle", 2000, 100, []), ("book", "mixed", 3000, 120, ["--levels", "1,3,10"])]},
+    "C07": {"quick": [("book", "reload", 300, 60, ["--levels", "1,10"]), ("market", "reload", 100, 80, ["--levels", "1,10"]), ("book", "mixed", 200, 80, ["--levels", "1,3,10"])],
+            "thorough": [("book", "reload", 6000, 120, ["--levels", "1,3,10,24"]), ("market", "reload", 2000, 120, ["--levels", "1,3,10"]), ("book", "mixed", 3000, 120, ["--levels", "1,3,10"])]},
     "C08": {"quick": [("env", "plain", 300, 8, ["--levels", "3"]), ("menv", "plain", 200, 8, ["--levels", "3"]),
                       ("env", "toggle", 100, 8, []), ("menv", "toggle", 100, 8, [])],
             "thorough": [("env", "plain", 5000, 12, ["--levels", "1,3,10"]), ("menv", "plain", 4000, 12, ["--levels", "1,3,10"]),
@@ -57,9 +57,9 @@ PLANS = {
                          ("book", "edge", 5000, 80, ["--levels", "1,3,10,24"]),
                          ("market", "malformed", 2000, 100, []), ("env", "malformed", 2000, 10, []), ("menv", "malformed", 2000, 10, [])]},
     "C13": {"quick": [("enum", "d3toggle", 4, 3, ["--toggle", "1"]), ("book", "toggle", 500, 60, []), ("market", "plain", 100, 80, []), ("env", "toggle", 100, 8, []),
-                      ("menv", "toggle", 100, 8, [])],
+                      ("menv", "toggle", 100, 8, []), ("book", "mixed", 200, 80, ["--levels", "1,3,10"])],
             "thorough": [("enum", "d3toggleties", 4, 3, ["--toggle", "1", "--ties", "1", "--profile", "toggle"]), ("enum", "d3toggle", 4, 3, ["--toggle", "1"]), ("book", "toggle", 12000, 120, []), ("book", "toggle", 2000, 100, ["--prices", "2"]),
-                         ("market", "plain", 2000, 100, []), ("env", "toggle", 2000, 12, []), ("menv", "toggle", 2000, 12, [])]},
+                         ("market", "plain", 2000, 100, []), ("env", "toggle", 2000, 12, []), ("menv", "toggle", 2000, 12, []), ("book", "mixed", 3000, 120, ["--levels", "1,3,10"])]},
     "C14": {"quick": [("market", "plain", 300, 80, ["--levels", "1,3,10"]), ("menv", "plain", 200, 8, ["--assets", "1,2,3,4"]),
                       ("menv", "toggle", 100, 8, ["--assets", "2,3,4"])],
             "thorough": [("market", "plain", 5000, 200, ["--levels", "1,3,10"]), ("menv", "plain", 4000, 12, ["--assets", "1,2,3,4"]),
@@ -517,6 +517,9 @@ def is_env(f):
 SPECS = {
     "C01": dict(modules=["Bourse.Props.C01"],
                 a=lambda f: f.kind == "R" and f.profile != "ties" and bool(cfields(f)),
+                # C01 quantifies over create / place / cancel / modify / events / clock: a failure whose minimal history needs a
+                # snapshot reload or a disabled period belongs to C07 / C13
+                needs=lambda lines: not any(l.startswith(("O reload", "O trading 0")) or (l.startswith("H ") and " book " in l and l.split()[6] == "0") for l in lines),
                 k=lambda f: f.kind == "K" and (bool(cfields(f)) or any(x.startswith(("fault", "harness", "driver", "bad", "unpars")) for x in f.fields))),
     "C02": dict(modules=["Bourse.Props.C02"],
                 a=lambda f: (f.kind == "A" and f.audit == "C02") or (f.kind == "R" and not cfields(f) and bool(f.fields & VIEWS)),
@@ -532,7 +535,7 @@ SPECS = {
                             or (f.profile == "overfull" and f.kind == "A"),
                 k=lambda f: f.profile in ("ties", "overfull") and f.kind == "K"),
     "C06": dict(modules=["Bourse.Props.C06"],
-                a=lambda f: (f.kind == "A" and f.audit == "C06") or (f.kind == "R" and bool(cfields(f)) and f.profile in ("modify", "toggle")),
+                a=lambda f: (f.kind == "A" and f.audit == "C06") or (f.kind == "R" and bool(cfields(f)) and f.profile in ("modify", "toggle", "mixed")),
                 needs=lambda lines: any(l.startswith(("O modify", "O ev modify")) for l in lines),
                 k=lambda f: f.kind == "K" and bool(cfields(f)) and "modify" in f.op),
     "C07": dict(modules=["Bourse.Props.C07"],
@@ -552,7 +555,7 @@ SPECS = {
                 k=lambda f: f.kind == "K" and bool(f.fields & {"result", "orders.price"})),
     "C13": dict(modules=["Bourse.Props.C13"],
                 a=lambda f: (f.kind == "A" and (f.audit == "C13" or (f.audit == "C08" and "no_trades_while_disabled" in f.fields)))
-                            or (f.kind == "R" and f.profile == "toggle" and bool(cfields(f))),
+                            or (f.kind == "R" and f.profile in ("toggle", "mixed") and bool(cfields(f))),
                 needs=lambda lines: any(l.startswith("O trading 0") or (l.startswith("H ") and " book " in l and l.split()[6] == "0") for l in lines),
                 k=lambda f: f.kind == "K" and ((f.tr == "0" and bool(cfields(f))) or f.op.startswith("trading"))),
     "C14": dict(modules=["Bourse.Props.C14"],
